@@ -89,6 +89,21 @@ namespace MEDDLY {
         protected:
             void _compute(node_handle A, oper_item &result);
 
+            /// In an identity-reduced relation forest, an edge from level
+            /// `from` to node `child` that skips a primed level stands for
+            /// an identity pattern: zero wherever x' != x.
+            inline bool skipsPrimedLevel(int from, node_handle child) const
+            {
+                if (!argF->isForRelations() || !argF->isIdentityReduced()) {
+                    return false;
+                }
+                const int cl = argF->getNodeLevel(child);
+                const int abscl = (cl < 0) ? -cl : cl;
+                // highest primed level strictly below `from`
+                const int pk = (from > 0) ? from : (-from) - 1;
+                return (pk > 0) && (abscl < pk);
+            }
+
         private:
             ct_entry_type* ct;
 #ifdef TRACE
@@ -127,6 +142,12 @@ void MEDDLY::range_templ<RTYPE>::compute(int L, unsigned in,
     out.indentation(0);
 #endif
     _compute(ap, result);
+    if (skipsPrimedLevel(-(int(argF->getNumVariables())+1), ap)) {
+        // the root edge itself skips levels
+        oper_item zero(RTYPE::getOpndType());
+        RTYPE::initItem(zero, argF->getTransparentNode());
+        RTYPE::updateItem(result, zero);
+    }
 }
 
 template <class RTYPE>
@@ -155,11 +176,24 @@ void MEDDLY::range_templ<RTYPE>::_compute(node_handle A, oper_item &r)
     // Do computation
     //
     unpacked_node* Au = unpacked_node::newFromNode(argF, A, FULL_ONLY);
+    const int Alevel = argF->getNodeLevel(A);
     _compute(Au->down(0), r);
     oper_item tmp(RTYPE::getOpndType());
     for (unsigned i=1; i<Au->getSize(); i++) {
         _compute(Au->down(i), tmp);
         RTYPE::updateItem(r, tmp);
+    }
+    //
+    // Identity-reduced relations: children reached by skipping a primed
+    // level are identity patterns, which are zero off the diagonal.
+    //
+    for (unsigned i=0; i<Au->getSize(); i++) {
+        if (Au->down(i) == argF->getTransparentNode()) continue;
+        if (skipsPrimedLevel(Alevel, Au->down(i))) {
+            RTYPE::initItem(tmp, argF->getTransparentNode());
+            RTYPE::updateItem(r, tmp);
+            break;
+        }
     }
 
     //
